@@ -1494,7 +1494,10 @@ def proximal_linfty(space):
         def _call(self, x, out):
             """Return ``self(x)``."""
 
-            radius = self.sigma
+            # The squared distance is taken in the (weighted) norm of the
+            # space, the sup-norm is not weighted. For a constant weight w
+            # this amounts to the step size sigma / w.
+            radius = self.sigma / _const_weight(self.domain)
 
             if x is out:
                 x = x.copy()
@@ -1561,9 +1564,25 @@ def proximal_convex_conj_linfty(space):
 
         def _call(self, x, out):
             """Return ``self(x, out=out)``."""
-            proj_l1(x, radius=1, out=out)
+            # The 1-norm of the space is weighted: for a constant weight w,
+            # ``w * sum(|x|) <= 1`` is the (unweighted) ball of radius 1 / w.
+            proj_l1(x, radius=1 / _const_weight(self.domain), out=out)
 
     return ProximalConvexConjLinfty
+
+
+def _const_weight(space):
+    """Return the constant weight of the inner product of ``space``.
+
+    This is the weighting constant (for discretized spaces the cell volume),
+    and 1 for spaces without a constant weighting.
+    """
+    const = getattr(getattr(space, 'weighting', None), 'const', None)
+    if isinstance(space, ProductSpace):
+        if const is None or not space.is_power_space or len(space) == 0:
+            return 1.0
+        return float(const) * _const_weight(space[0])
+    return 1.0 if const is None else float(const)
 
 
 def proj_l1(x, radius=1, out=None):
